@@ -109,4 +109,59 @@ def cleanupBorsh (env : Env) (ty : AcctType) (op : CleanOp) (who : Who) (tgt : K
   | op, .cached none => (.err op.missing, s)
   | op, .cached (some f) => runOp env ty.W op f tgt (ser s)
 
+
+/-! ## A derived account set that caches BOTH a funder and a recipient
+
+`struct S { #[validate(funder)] funder: Signer<Mut<AccountInfo>>, #[validate(recipient)] recipient:
+Mut<AccountInfo>, #[cleanup(arg = Op(()))] target: Account<T> }` in either declaration order of the
+first two fields. The derive (`star_frame_proc/.../struct_impl/validate.rs` 215-252) validates the
+fields in declaration order and, right after a field marked `funder` / `recipient`, runs
+`if ctx.get_funder().is_none() { ctx.set_funder(..) }` / the same for the recipient
+(`context.rs` 85-103: plain getters and setters) — so after a successful validation of a fresh
+context BOTH are cached, whatever the order. Cleanup then runs the cached variant on the target. -/
+
+inductive Order
+  | funderFirst | recipientFirst
+deriving DecidableEq, Repr
+
+/-- `Signer<Mut<AccountInfo>>`: inner (`Mut`) check first, then the signer check. -/
+def validateFunderField (env : Env) (k : Key) : Except Err Unit :=
+  if !env.isWritable k then .error .expectedWritable
+  else if !env.isSigner k then .error .expectedSigner
+  else .ok ()
+
+/-- `Mut<AccountInfo>`. -/
+def validateRecipientField (env : Env) (k : Key) : Except Err Unit :=
+  if !env.isWritable k then .error .expectedWritable else .ok ()
+
+/-- What the context caches after validating the two marked fields of a fresh context. -/
+def cachedAfterValidate (fk rk : Key) : Option Funder × Option Funder :=
+  (some { key := fk, seeds := none }, some { key := rk, seeds := none })
+
+/-- Validation then cleanup of the derived set. -/
+def runSet (env : Env) (ty : AcctType) (order : Order) (op : CleanOp) (fk rk tgt : Key) (s : St) :
+    Res Unit × St :=
+  let first := match order with
+    | .funderFirst => validateFunderField env fk
+    | .recipientFirst => validateRecipientField env rk
+  let second := match order with
+    | .funderFirst => validateRecipientField env rk
+    | .recipientFirst => validateFunderField env fk
+  match first with
+  | .error e => (.err e, s)
+  | .ok () =>
+    match second with
+    | .error e => (.err e, s)
+    | .ok () =>
+      match validateAccountInfo env ty (s.w tgt) with
+      | .error e => (.err e, s)
+      | .ok () =>
+        let c := cachedAfterValidate fk rk
+        let who : Who := match op with
+          | .normalize => .cached c.1
+          | .receive => .cached c.1
+          | .refund => .cached c.2
+          | .close => .cached c.2
+        cleanupZc env ty.W op who tgt s
+
 end Account.Rent
